@@ -70,4 +70,30 @@ theorem parity_unique (n : Nat) (h2 : 2 ≤ n) (h68 : n ≤ 68) (msg : List Nat)
 example : RS.parity 10 [0x10, 0x20, 0x0C, 0x56, 0x61, 0x80, 0xEC, 0x11, 0xEC, 0x11, 0xEC, 0x11, 0xEC, 0x11, 0xEC, 0x11]
     = .ok [0xA5, 0x24, 0xD4, 0xC1, 0xED, 0x36, 0xC7, 0x87, 0x2C, 0x55] ∧ 16 + 10 ≤ 255 := by decide +kernel
 
+/-- encoder and decoder meet: what the coder emits (message ++ parity, blocks of at most 255 bytes)
+is restored exactly by `reedsolomon.Decode` from every received word with at most floor(n/2)
+damaged bytes — the RS-level round trip on which C01 and C03 rest, here stated with the encoder
+model of C13 on one side and the decoder model of C14 on the other -/
+theorem encode_damage_decode (n : Nat) (h2 : 2 ≤ n) (h68 : n ≤ 68) (msg : List Nat) (hm : ∀ b ∈ msg, b < 256)
+    (hL : msg.length + n ≤ 255) (par r : List Nat) (hpar : RS.parity n msg = .ok par)
+    (hr : ∀ b ∈ r, b < 256) (hlen : r.length = msg.length + n)
+    (hd : QRV.Props.C14.dist (msg ++ par) r ≤ n / 2) : RS.decode r n = .ok (msg ++ par) := by
+  obtain ⟨par0, h0, hl, hb, hz⟩ := parity_is_codeword n h2 h68 msg hm
+  rw [hpar] at h0
+  cases h0
+  have hA : QRV.Props.C14.Bytes (msg ++ par) := by
+    intro b hb0; rcases List.mem_append.mp hb0 with h | h
+    · exact hm b h
+    · exact hb b h
+  have hcA : QRV.Props.C14.Codeword n (msg ++ par) := fun i hi => by
+    rw [root_eq n i h68 hi]; exact hz i hi
+  exact QRV.Props.C14.dec_complete n (msg ++ par) r h2 h68 hA hr (by simp [hl, hlen]) (by simp [hl]; omega) hcA hd
+
+/-! non-vacuity: Annex I block, two damaged bytes (positions 1 and 25), within floor(10/2) -/
+example : QRV.Props.C14.dist
+    ([0x10, 0x20, 0x0C, 0x56, 0x61, 0x80, 0xEC, 0x11, 0xEC, 0x11, 0xEC, 0x11, 0xEC, 0x11, 0xEC, 0x11] ++
+      [0xA5, 0x24, 0xD4, 0xC1, 0xED, 0x36, 0xC7, 0x87, 0x2C, 0x55])
+    [0x10, 0x21, 0x0C, 0x56, 0x61, 0x80, 0xEC, 0x11, 0xEC, 0x11, 0xEC, 0x11, 0xEC, 0x11, 0xEC, 0x11,
+      0xA5, 0x24, 0xD4, 0xC1, 0xED, 0x36, 0xC7, 0x87, 0x2C, 0x00] ≤ 10 / 2 := by decide +kernel
+
 end QRV.Props.C13
